@@ -38,7 +38,7 @@ def build(kind, rng, et="QUAD4", h=1.0):
         beh = Models.InElastic.Behavior(2, Models.Elastic.Isotropic(3, E=100.0, v=0.3), hardening=Models.InElastic.IsotropicHardening.Linear(20.0),
                                         yieldSurface=Models.InElastic.Yield.VonMises(1.0), thickness=1.0)
         s = Simulations.InElastic(mesh, beh)
-        names = ["displacement", "Svm"]
+        names = ["displacement", "Svm", "p"]      # p: accumulated plastic strain (internal variable)
     elif kind.startswith("phasefield"):
         solver, split = kind.split(":")[1:3]
         mat = Models.Elastic.Isotropic(2, E=210.0, v=0.3, planeStress=True, thickness=1.0)
@@ -65,13 +65,19 @@ def snapshot(s, names):
     snap = {}
     for n in names:
         try:
-            v = s.Result(n, nodeValues=True) if n not in ("Wdef",) else s.Result(n)
+            v = s.Result(n, nodeValues=False) if n == "p" else (s.Result(n, nodeValues=True) if n not in ("Wdef",) else s.Result(n))
         except Exception as ex:  # noqa: BLE001
             v = "error:" + type(ex).__name__
         snap[n] = np.array(v, dtype=float).copy() if not isinstance(v, str) else v
     snap["__Nn"] = int(s.mesh.Nn)
     snap["__Ne"] = int(s.mesh.Ne)
     return snap
+
+
+def snapshot_of_iter(s, names, i):
+    """results of stored iteration i read back through Result(name, iter=i) (restores i as a side effect)"""
+    s.Set_Iter(i)
+    return snapshot(s, names)
 
 
 def same(a, b, tol=1e-9):
@@ -106,6 +112,7 @@ def main():
             load = 0.0
             live_id = 0
             lineage = []        # how the live state was produced: ('load', L) / ('save',) / ('mesh',)
+            restored = None     # index of the saved iteration the live state is a restore of (None after a solve)
             snap_lineage = []
 
             def register():
@@ -119,14 +126,16 @@ def main():
             elif kind.startswith("phasefield"):
                 # tension (damage grows), then compression twice: same irreversible damage, other displacement
                 prefix = ["solve+", "save", "solve-", "save", "solve-", "save", "set1", "set2", "set1", "set0", "set2"]
+            elif kind == "inelastic":
+                prefix = ["solve+", "save", "solve++", "save", "set0", "save", "set1", "save", "set2"]
             else:
                 prefix = ["solve", "save"]
             plan = prefix + [rng.choice(["solve", "solve", "save", "save", "folder", "set", "query", "result", "mesh"]) for _ in range(nops)] + ["save", "set", "query"]
             for op in plan:
                 if op == "mesh" and (kind != "elastic" or len(meshes) > 2):
                     op = "solve"
-                if op in ("solve+", "solve-"):
-                    load = 0.04 if op == "solve+" else -(abs(load) * 0.75 + 0.005)
+                if op in ("solve+", "solve-", "solve++"):
+                    load = (0.04 if kind != "inelastic" else 0.05) if op == "solve+" else (load + 0.04 if op == "solve++" else -(abs(load) * 0.75 + 0.005))
                     op = "solve*"
                 if op in ("solve", "solve*"):
                     if op == "solve":
@@ -140,12 +149,23 @@ def main():
                         res.notes.append(f"{kind}: solve failed ({type(ex).__name__}); history cut")
                         break
                     live_id = register()
+                    restored = None
                     lineage.append(("load", load))
                     model_ops += ["solve", str(live_id)]
                     ops_txt.append(f"solve(load={load})")
                 elif op == "save":
                     s.Save_Iter()
                     snaps.append(snapshot(s, names))
+                    if restored is not None:
+                        # saving a restored iteration again stores that iteration (spec: setIter j; save appends log[j])
+                        res.case((h, len(ops_txt), "re-save"))
+                        bad = [n for n in names if not same(snaps[-1][n], snaps[restored][n], 1e-7)]
+                        if not bad:
+                            back = snapshot_of_iter(s, names, len(snaps) - 1)
+                            bad = [n for n in names if not same(back[n], snaps[restored][n], 1e-7)]
+                        if bad:
+                            res.fail(f"re-save of a restored iteration sim={kind} fields={','.join(bad)}",
+                                     f"Set_Iter({restored}) followed by Save_Iter() stored an iteration whose {bad} differ from those of iteration {restored}", ident())
                     lineage.append(("save",))
                     snap_lineage.append((list(lineage), load))
                     model_ops.append("save")
@@ -162,12 +182,13 @@ def main():
                     s.Solver_Set_Hyperbolic_Algorithm(0.25)
                     load = 0.0
                     live_id = register()
+                    restored = None
                     lineage.append(("mesh", len(meshes) - 1))
                     model_ops += ["solve", str(live_id)]
                     ops_txt.append("simu.mesh = finer mesh")
-                elif snaps and op in ("set", "query", "result", "set0", "set1"):
+                elif snaps and op in ("set", "query", "result", "set0", "set1", "set2"):
                     i = rng.randrange(len(snaps))
-                    if op in ("set0", "set1"):
+                    if op in ("set0", "set1", "set2"):
                         i, op = min(int(op[3]), len(snaps) - 1), "set"
                     want = snaps[i]
                     if op == "query":
@@ -197,6 +218,7 @@ def main():
                         # the restored state becomes the live state
                         registry.append(now)
                         live_id = len(registry)
+                        restored = i
                         lineage = list(snap_lineage[i][0])
                         load = snap_lineage[i][1]
                         model_ops += ["set", str(i)]
